@@ -15,13 +15,13 @@ import glob, os, random, time
 
 from .. import dwforest as DF
 from ..dwgen import build_file, TAG, AT, FORM, AT_NAME, TAG_NAME, FORM_NAME
-from ..dwcheck import TempElf
+from ..dwcheck import TempElf, TempElfSet, forest_files
 from ..drv import Driver, DriverCrash, DriverTimeout
 from ..harness import Evidence, run_pool, finish
 from ..hdr import dwarf_constants
 
 PID = "C06"
-RULE = ("generated forests (<= 6 units, <= 40 DIEs, import graphs nested <= 4, inheritance chains with shadowing, link trees, chains of 15-40 links, cross-unit chains whose far end carries DW_AT_decl_file (per-unit line tables)) and "
+RULE = ("generated forests (<= 6 units, <= 40 DIEs, import graphs nested <= 4, inheritance chains with shadowing, link trees, chains of 15-40 links, cross-unit chains whose far end carries DW_AT_decl_file (per-unit line tables), links into a dwz-style supplementary file (GNU_ref_alt / ref_sup4) and into DWARF 4 type units of .debug_types (ref_sig8), the target often at the linking DIE's own offset of the other number space) and "
         "the ELF samples of /repo/tests; every DIE: cooked unit list, cooked children, cooked attribute list vs the model; "
         "every (DIE, attribute name) for names occurring in the file + 6 absent ones: the @AT_x / ?AT_x / name laws; every tag "
         "and form constant of the vocabulary occurring in the file + absent ones: ?TAG_x / ?FORM_x laws; raw and cooked.  "
@@ -191,11 +191,13 @@ def work_gen(task):
             if len(ev.violations) >= 30:
                 break       # verdict settled
             rnd = random.Random((seed << 32) ^ (i * 2654435761 & 0xffffffff) ^ 0xC06)
-            g = DF.ForestGen(rnd, DF.FCfg(max_units=rnd.choice([2, 4, 6]), max_dies=rnd.choice([12, 40]), partial=0.7, long_chains=0.08))
+            g = DF.ForestGen(rnd, DF.FCfg(max_units=rnd.choice([2, 4, 6]), max_dies=rnd.choice([12, 40]), partial=0.7, long_chains=0.08,
+                                                 alt=0.15, debug_types=0.12))
             f = g.forest()
-            data = build_file(f)
+            data, others = forest_files(f)
+            extra = {"other_files": [[n, d.hex()] for n, d in others]} if others else {}
             try:
-                with TempElf(data) as path:
+                with TempElfSet(data, others) as path:
                     for mode in ("cooked", "raw"):
                         h = drv.open(path, mode == "raw")
                         tok = "V%d" % h
@@ -217,8 +219,8 @@ def work_gen(task):
                                     ev.nontrivial.add("%x" % hash((data, k)))
                                 ev.label("model:cooked-attributes")
                                 if why:
-                                    ev.violations.append({"property": PID, "elf_hex": data.hex(), "recipe": {"seed": seed, "index": i},
-                                                          "reason": "cooked: " + why, "signature": "C06:attrs:" + why[:60]})
+                                    ev.violations.append(dict({"property": PID, "elf_hex": data.hex(), "recipe": {"seed": seed, "index": i},
+                                                               "reason": "cooked: " + why, "signature": "C06:attrs:" + why[:60]}, **extra))
                                 elif nt and rnd.random() < 0.03:
                                     ev.sample({"dies": len(r["res"]), "inherit_links": g.labels.get("inherit-link", 0),
                                                "imports": g.labels.get("import-edge", 0), "nontrivial_dies": nt})
@@ -230,8 +232,8 @@ def work_gen(task):
                                 bad = laws(drv, ev, tok, mode, present_at + absent_at, present_tg[:8] + rnd.sample(tg_all, 3),
                                            present_fm + rnd.sample(fm_all, 3), "gen%d" % i)
                                 for b in bad[:3]:
-                                    ev.violations.append({"property": PID, "elf_hex": data.hex(), "recipe": {"seed": seed, "index": i}, "mode": mode,
-                                                          "reason": "%s: %s" % (mode, b), "signature": "C06:law:%s:%s" % (mode, b[:60])})
+                                    ev.violations.append(dict({"property": PID, "elf_hex": data.hex(), "recipe": {"seed": seed, "index": i}, "mode": mode,
+                                                               "reason": "%s: %s" % (mode, b), "signature": "C06:law:%s:%s" % (mode, b[:60])}, **extra))
                         finally:
                             drv.req("vclose %d" % h)
             except DriverCrash as e:
@@ -239,7 +241,8 @@ def work_gen(task):
                                       "reason": "driver crashed: " + e.report[-3000:], "signature": "C06:crash:%d" % i})
             except DriverTimeout:
                 ev.inconc("watchdog")
-            for l in ("inherit-link", "both-links", "link-tree", "import-edge", "long-chain", "cross-unit-chain", "decl-file"):
+            for l in ("inherit-link", "both-links", "link-tree", "import-edge", "long-chain", "cross-unit-chain", "decl-file",
+                      "alt-link", "alt-link-same-offset", "sig8-link", "sig8-link-same-offset"):
                 if g.labels.get(l):
                     ev.label("gen:" + l, g.labels[l])
     finally:
@@ -302,6 +305,8 @@ def main(tier, seed):
                           "two-link trees generated": ev.labels.get("gen:link-tree", 0) > 20,
                           "long chains generated": ev.labels.get("gen:long-chain", 0) > 10,
                           "cross-unit chains with decl_file": ev.labels.get("gen:cross-unit-chain", 0) > 20,
+                          "links into a supplementary file, the target at the linking DIE's own offset": ev.labels.get("gen:alt-link-same-offset", 0) > 20,
+                          "links into .debug_types by signature, the type at the linking DIE's own offset": ev.labels.get("gen:sig8-link-same-offset", 0) > 10,
                           "laws checked": ev.labels.get("law:@AT", 0) > 500 and ev.labels.get("law:?TAG", 0) > 200 and ev.labels.get("law:?FORM", 0) > 200,
                           "samples": ev.labels.get("sample:cooked", 0) >= 8})
 
